@@ -2,6 +2,8 @@ package cmdlib
 
 import (
 	"fmt"
+	"os"
+	"strconv"
 	"strings"
 	"time"
 
@@ -189,5 +191,28 @@ func BindingRuleDelete(ids ...string) world.Op {
 			l = append(l, BindingRuleIDs[i])
 		}
 		return structs.ACLBindingRuleDeleteRequestType, &structs.ACLBindingRuleBatchDeleteRequest{BindingRuleIDs: l}, true
+	}}
+}
+
+// Epoch is a wall-clock instant shared by every process of one check run (VERIF_EPOCH, set by the parent),
+// for the few commands whose content must lie in the near future of the real clock.
+func Epoch() time.Time {
+	if v := os.Getenv("VERIF_EPOCH"); v != "" {
+		if n, err := strconv.ParseInt(v, 10, 64); err == nil {
+			return time.Unix(n, 0).UTC()
+		}
+	}
+	return time.Now().Truncate(time.Hour).UTC()
+}
+
+// TokenSetReplicated is a token batch-set as ACL replication issues it in a secondary datacenter: FromReplication is
+// set and the token expires `in` after Epoch() - in the future of a replica that applies the log now, in the past of
+// one that applies it much later.
+func TokenSetReplicated(id string, in time.Duration) world.Op {
+	return world.Op{Name: fmt.Sprintf("acl.token-set-replicated(%s,expires=epoch+%v)", id, in), Kind: "acl/token-set-replicated", Build: func(w *world.World) (structs.MessageType, any, bool) {
+		e := Epoch().Add(in)
+		tok := &structs.ACLToken{AccessorID: TokenAccessors[id], SecretID: TokenSecrets[id], Description: "replicated", CreateTime: Epoch().Add(-time.Hour), ExpirationTime: &e}
+		tok.SetHash(true)
+		return structs.ACLTokenSetRequestType, &structs.ACLTokenBatchSetRequest{Tokens: structs.ACLTokens{tok}, FromReplication: true}, true
 	}}
 }
